@@ -492,6 +492,35 @@ theorem C10_invalid_pipelines_start_nothing (sys : Sys) (failS failT : Comp → 
   refine ⟨hn, C10_rejected_starts_nothing sys failS failT ?_⟩
   rcases hn with hn | hn <;> rw [hn] <;> exact fun h => by cases h
 
+/-- with factories that may fail: without a failing factory `newServiceWith` is `newService`; a factory error is returned
+exactly when the pipelines are accepted and some component's factory fails (before the extensions are looked at) -/
+theorem C10_new_with_failing_factory (cfg : Cfg) (exts : List Ext) (failCreate : Node → Bool) :
+    (newServiceWith cfg exts (fun _ => false) = (newService cfg exts).map NewErrW.new) ∧
+    (newServiceWith cfg exts failCreate = some .create ↔
+      (build cfg = none ∧ ∃ n, n ∈ nodes cfg ∧ n.isComp = true ∧ failCreate n = true)) := by
+  obtain ⟨h1, h2, h3⟩ := C09_build_with_failing_factory cfg failCreate
+  constructor
+  · have := (C09_build_with_failing_factory cfg (fun _ => false)).2.2
+    simp only [newServiceWith, newService, this]
+    cases hb : build cfg with
+    | none =>
+      simp only [Option.map]
+      by_cases hm : extMissing exts = true
+      · simp [hm]
+      · by_cases hs : extSortable exts = true <;> simp [hm, hs]
+    | some e => cases e <;> simp [Option.map]
+  · rw [← h2]
+    simp only [newServiceWith]
+    cases hbw : buildWith cfg failCreate with
+    | none =>
+      by_cases hm : extMissing exts = true
+      · simp [hm]
+      · by_cases hs : extSortable exts = true <;> simp [hm, hs]
+    | some e =>
+      cases e with
+      | create => simp
+      | build e' => cases e' <;> simp
+
 /-- an accepted service runs the full life cycle of `run` -/
 theorem C10_accepted_lifetime (sys : Sys) (failS failT : Comp → Bool) (h : newService sys.cfg sys.exts = none) :
     lifetime sys failS failT = run sys failS failT := by
